@@ -241,3 +241,68 @@ pub fn c41_top_bounded_keyed_fold<'a>(a: Stream<u32, P<'a>>) {
         .assume_ordering::<hydro_lang::live_collections::stream::TotalOrder>(nondet!(/** test */))
         .embedded_output("out");
 }
+
+// ------------------------------------------------------------------------------------ C31
+
+/// the batch every slice observes, as one Vec per slice
+pub fn c31_batch<'a>(a: Stream<u32, P<'a>>) {
+    let out = sliced! {
+        let b = use::batch(a, nondet!(/** recorded */));
+        b.collect_vec().into_stream()
+    };
+    out.embedded_output("out");
+}
+
+/// a batch hook and a snapshot hook (of the running count of the same input) in one slice
+pub fn c31_snapshot<'a>(a: Stream<u32, P<'a>>) {
+    let cnt = a.clone().count();
+    let out = sliced! {
+        let b = use::batch(a, nondet!(/** recorded */));
+        let s = use::snapshot(cnt, nondet!(/** recorded */));
+        b.count().zip(s).into_stream()
+    };
+    out.embedded_output("out");
+}
+
+/// a state hook: (value read, value written) per slice
+pub fn c31_state<'a>(a: Stream<u32, P<'a>>) {
+    let out = sliced! {
+        let b = use::batch(a, nondet!(/** recorded */));
+        let mut total = use::state(|l| l.singleton(q!(0u32)));
+        let read = total.clone();
+        total = b.fold(q!(|| 0u32), q!(|acc, x| *acc += x)).zip(total).map(q!(|(a, b)| a + b));
+        read.zip(total.clone()).into_stream()
+    };
+    out.embedded_output("out");
+}
+
+/// two batch hooks of one slice
+pub fn c31_two<'a>(a: Stream<u32, P<'a>>, b: Stream<u32, P<'a>>) {
+    let out = sliced! {
+        let x = use::batch(a, nondet!(/** recorded */));
+        let y = use::batch(b, nondet!(/** recorded */));
+        x.collect_vec().zip(y.collect_vec()).into_stream()
+    };
+    out.embedded_output("out");
+}
+
+// ------------------------------------------------------------------------------------ C34
+
+/// keyed counter (shape of hydro_test::tutorials::keyed_counter): increments are counted inside
+/// an atomic region and acknowledged at its end; reads join an atomic snapshot of the counts
+pub fn c34_counter<'a>(r: Stream<u32, P<'a>>, w: Stream<u32, P<'a>>) {
+    let aw = w.atomic();
+    let counts = aw.clone().map(q!(|k| (k, ()))).into_keyed().value_counts();
+    aw.end_atomic().embedded_output("ack");
+    let reads = r.map(q!(|k| (k, ()))).into_keyed();
+    let looked_up = sliced! {
+        let rb = use::batch(reads, nondet!(/** batch boundaries are not observed */));
+        let snap = use::atomic(counts, nondet!(/** atomic snapshot */));
+        rb.join_keyed_singleton(snap)
+    };
+    looked_up
+        .entries()
+        .map(q!(|(k, (_, c))| (k, c)))
+        .assume_ordering::<hydro_lang::live_collections::stream::TotalOrder>(nondet!(/** recorded per tick, compared as a multiset */))
+        .embedded_output("read");
+}
